@@ -27,6 +27,7 @@ type c13Op struct {
 }
 
 type C13Plan struct {
+	Real    *RealPlan            `json:"real,omitempty"` // run one unit with the real runner binary instead (realrunner_test.go)
 	Runners []simwork.RunnerPlan `json:"runners"`
 	Ops     []c13Op              `json:"ops"`
 	Shrink  []string             `json:"_shrink"`
@@ -35,6 +36,10 @@ type C13Plan struct {
 func genC13(seed uint64, tier string) any {
 	r := simnet.NewRng(seed, "c13")
 	p := &C13Plan{Shrink: []string{"ops"}}
+	if r.Bool(0.05) {
+		p.Real = genReal(r)
+		return p
+	}
 	for i := 0; i < 12; i++ {
 		p.Runners = append(p.Runners, genRunnerPlan(r, false))
 	}
@@ -83,6 +88,10 @@ type c13Seen struct {
 
 func runC13(t *testing.T, planAny any, res *simnet.Result) {
 	p := planAny.(*C13Plan)
+	if p.Real != nil {
+		runReal(t, p.Real, "c13", res)
+		return
+	}
 	runDir := simwork.NewRunDir()
 	defer simwork.RemoveRunDir(runDir)
 	simnet.Bubble(t, func() {
